@@ -340,25 +340,43 @@ func classifyLoop(p *core.Prog, f *ssa.Function, l *core.Loop, mayBlock map[*ssa
 			}
 		}
 	}
-	// consuming a bounded read buffer: every cycle passes a consuming ReadBuffer call
-	consuming := func(i ssa.Instruction) bool {
-		_, ok := core.IsCall(i, "typed.ReadBuffer.ReadUint16", "typed.ReadBuffer.ReadBytes", "typed.ReadBuffer.ReadSingleByte", "typed.ReadBuffer.ReadByte",
+	// consuming a bounded read buffer. A typed.ReadBuffer read either consumes
+	// its bytes or sets the sticky error and consumes nothing, so the loop
+	// terminates only if every cycle (a) passes a read of fixed non-zero
+	// width and (b) passes a test of Err() that leaves the loop: after
+	// finitely many successful reads the buffer is empty, the next read
+	// sets the error and the test exits. A test of BytesRemaining() alone
+	// does not do: a failed read leaves it unchanged.
+	fixedRead := func(i ssa.Instruction) bool {
+		_, ok := core.IsCall(i, "typed.ReadBuffer.ReadUint16", "typed.ReadBuffer.ReadSingleByte",
 			"typed.ReadBuffer.ReadUint32", "typed.ReadBuffer.ReadUint64", "typed.ReadBuffer.ReadLen8String", "typed.ReadBuffer.ReadLen16String")
 		return ok
 	}
-	if everyCyclePasses(f, l, consuming) {
-		// and the exit test looks at the buffer (remaining bytes or error)
-		usesBuf := false
-		for b := range l.Blocks {
-			for _, i := range b.Instrs {
-				if _, ok := core.IsCall(i, "typed.ReadBuffer.BytesRemaining", "typed.ReadBuffer.Err"); ok {
-					usesBuf = true
-				}
+	errExit := func(i ssa.Instruction) bool {
+		ifi, ok := i.(*ssa.If)
+		if !ok {
+			return false
+		}
+		b := ifi.Block()
+		if l.Blocks[b.Succs[0]] && l.Blocks[b.Succs[1]] {
+			return false
+		}
+		bo, ok := ifi.Cond.(*ssa.BinOp)
+		if !ok || (bo.Op != token.EQL && bo.Op != token.NEQ) {
+			return false
+		}
+		for _, side := range []ssa.Value{bo.X, bo.Y} {
+			if c := callResult(side, "typed.ReadBuffer.Err"); c != nil && l.Blocks[c.Block()] {
+				return true
 			}
 		}
-		if usesBuf {
-			return "every iteration consumes bytes of a bounded read buffer (or sets its sticky error), and the exit test reads that buffer", true
+		return false
+	}
+	if everyCyclePasses(f, l, fixedRead) {
+		if everyCyclePasses(f, l, errExit) {
+			return "every iteration performs a fixed-width read of a bounded read buffer and passes an exit test of its sticky error", true
 		}
+		return "unclassified: the loop reads a bounded buffer but no exit tests its sticky error on every iteration (a failed read consumes nothing: the loop spins)", false
 	}
 	blockingStep := func(i ssa.Instruction) bool {
 		if isBlockingOp(i) {
